@@ -597,6 +597,9 @@ class H2Protocol:
             # push on a push promises request.
             pass
         else:
+            if self.closed:
+                # Closed whilst the promise was waiting to be written
+                return
             event = _SyntheticRequest(stream_id=push_stream_id, headers=request_headers)
             await self._create_stream(event)
             await self.streams[event.stream_id].handle(EndBody(stream_id=event.stream_id))
